@@ -233,18 +233,23 @@ def rule_sent(R):
     R.floor("sent/kind", m, 6, "FlushedPacket constructions")
 
 
-def rule_order(R):
+def clause_order(R, prefix, queues, why):
     f = R.f
     cen = outq.census(f)
     n = 0
-    for q in ("retained", "pending_control"):
+    for q in queues:
         for (b, c, m, mut) in cen[q]["calls"]:
             n += 1
             if m in outq.ORDER_BREAKING:
-                R.ob("order/%s/%s/%s" % (q, b.fn_name, m), False,
-                     "`%s` on `%s` in %s does not preserve the order in which packets were accepted" % (m, q, b.name),
+                R.ob("%s/%s/%s/%s" % (prefix, q, b.fn_name, m), False,
+                     "`%s` on `%s` in %s does not preserve the order in which packets were accepted%s" % (m, q, b.name, why),
                      where=c.span)
-        R.ob("order/%s" % q, True, "no order-breaking operation on `%s`" % q, nontrivial=True)
+        R.ob("%s/%s" % (prefix, q), True, "no order-breaking operation on `%s`" % q, nontrivial=True)
+    return n
+
+
+def rule_order(R):
+    n = clause_order(R, "order", ("retained", "pending_control"), "")
     R.floor("order", n, 10, "method calls on the retained/control queues")
 
 
